@@ -1208,7 +1208,15 @@ impl Connection {
                 }
                 Timer::KeyDiscard => {
                     self.zero_rtt_crypto = None;
-                    self.prev_crypto = None;
+                    // The timer is shared with the 0-RTT keys: the keys of the previous phase are only
+                    // obsolete once the peer has acknowledged the update that replaced them
+                    if self
+                        .prev_crypto
+                        .as_ref()
+                        .is_some_and(|prev| prev.end_packet.is_some())
+                    {
+                        self.prev_crypto = None;
+                    }
                 }
                 Timer::PathValidation => {
                     debug!("path validation failed");
